@@ -3,9 +3,23 @@
 (* Design-level state machine for C18: one abstract NAS model of kind Kind *)
 (* driven by every sequence of calls over                                  *)
 (*   { export, export(add_bn=False), summary, cost, get_cost(n),           *)
-(*     cost_specification := c, forward, train(), eval() }.                *)
+(*     cost_specification := c, forward, train(), eval(),                  *)
+(*     one option call (update_softmax_options(o = v), PIT mask switches,  *)
+(*     discrete_cost := v) }.                                              *)
 (*                                                                         *)
-(* Two uses:                                                               *)
+(* The control state is a product of two groups of dimensions that the     *)
+(* code keeps apart (modes / BatchNorm counter / cost specification on one *)
+(* side, the option record and the sampler in force on the other), so it   *)
+(* is explored in two HALVES (as NasControlMC does for C11):               *)
+(*   Half = "modes"   : options fixed by the constructor; calls = the      *)
+(*                      observers, the specification setter, forward,      *)
+(*                      train(), eval()                                    *)
+(*   Half = "options" : specification fixed, mode fixed by the initial     *)
+(*                      state; calls = the observers, forward and every    *)
+(*                      single option call that CHANGES an option          *)
+(* Both halves contain "set something; observer; forward / cost".          *)
+(*                                                                         *)
+(* Two uses per half:                                                      *)
 (*  - TrackHist = FALSE: the graph is explored to CLOSURE (this subsumes   *)
 (*    every call sequence of every length); the labelled graph is dumped   *)
 (*    and every edge is executed on real models by harness/checks/c18.py.  *)
@@ -16,7 +30,9 @@
 (***************************************************************************)
 EXTENDS Observers, TLC
 
-CONSTANTS Impl,       \* "ref" | "pinned" | "f16" | "costkeys"
+CONSTANTS Impl,       \* "ref" | "pinned" | "f16" | "costkeys" | "optreset"
+          Half,       \* "modes" | "options"
+          Temps,      \* temperatures x 1000 (contains 1000, the constructor default)
           Kind,       \* "pit" | "mps" | "sn"
           MaxBn,      \* saturation of the BatchNorm-update counter
           TrackHist,  \* BOOLEAN
@@ -25,23 +41,34 @@ CONSTANTS Impl,       \* "ref" | "pinned" | "f16" | "costkeys"
 VARIABLES core, cs, par, init, hist
 vars == <<core, cs, par, init, hist>>
 
-NoCore  == [wt |-> FALSE, st |-> FALSE, theta |-> "-", bn |-> 0, dk |-> {}]
+NoCore  == [wt |-> FALSE, st |-> FALSE, theta |-> "-", bn |-> 0, dk |-> {}, opt |-> DefaultOpt, samp |-> "-"]
 HardSet == IF Kind = "pit" THEN {FALSE} ELSE BOOLEAN
 
-TypeOK == /\ core \in [wt : BOOLEAN, st : BOOLEAN, theta : {"-", "soft", "hard"}, bn : 0..MaxBn, dk : SUBSET {"costkeys"}]
-          /\ cs \in Specs
-          /\ par \in [hard : BOOLEAN, hasbn : BOOLEAN, maxbn : {MaxBn}]
+Opts == [temp : Temps, hard : BOOLEAN, gumbel : BOOLEAN, disable : BOOLEAN,
+         tf : BOOLEAN, trf : BOOLEAN, td : BOOLEAN, dc : BOOLEAN]
 
-\* initial states: constructor arguments (mode of the user's network, hard_softmax, cost specification), followed
-\* by "the usual forward pass" so that the stored coefficients are those of the current mode
-Init == \E train \in BOOLEAN, hard \in HardSet, c0 \in {"A", "D"} :
-          /\ par = [hard |-> hard, hasbn |-> Kind # "mps", maxbn |-> MaxBn]
-          /\ core = [wt |-> train, st |-> train, theta |-> Sampled(Kind, hard, train), bn |-> 0, dk |-> {}]
+TypeOK == /\ core \in [wt : BOOLEAN, st : BOOLEAN, theta : {"-", "soft", "hard"}, bn : 0..MaxBn, dk : SUBSET {"costkeys"},
+                       opt : Opts, samp : {"-", "sm", "gs", "none"}]
+          /\ cs \in Specs
+          /\ par \in [hasbn : BOOLEAN, maxbn : {MaxBn}]
+
+\* initial states: constructor arguments (mode of the user's network, hard_softmax, Gumbel sampler of the SuperNet
+\* blocks, cost specification), followed by "the usual forward pass" so that the stored coefficients are those of
+\* the current mode
+GumSet == IF Kind = "sn" /\ Half = "options" THEN BOOLEAN ELSE {FALSE}
+Init == \E train \in BOOLEAN, hard \in (IF Half = "modes" THEN HardSet ELSE {FALSE}), gum \in GumSet,
+           c0 \in (IF Half = "modes" THEN {"A", "D"} ELSE {"A"}) :
+          LET o0 == [DefaultOpt EXCEPT !.hard = hard, !.gumbel = gum] IN
+          /\ par = [hasbn |-> Kind # "mps", maxbn |-> MaxBn]
+          /\ core = [wt |-> train, st |-> train, theta |-> Sampled(Kind, hard, train), bn |-> 0, dk |-> {},
+                     opt |-> o0, samp |-> SamplerOf(Kind, o0)]
           /\ cs = c0
           /\ init = IF TrackHist THEN [core |-> core, cs |-> c0] ELSE [core |-> NoCore, cs |-> "A"]
           /\ hist = <<>>
 
-Do(a) == /\ Enabled(Kind, cs, a)
+InHalf(a) == IF Half = "modes" THEN a.a # "upd" ELSE a.a \notin {"setcs", "getcost", "mode"}
+
+Do(a) == /\ Enabled(Kind, cs, a) /\ InHalf(a)
          /\ (TrackHist => Len(hist) < MaxLen)
          /\ core' = ImplNext(Impl, Kind, par, core, a)
          /\ cs' = IF a.a = "setcs" THEN a.c ELSE cs
@@ -55,6 +82,9 @@ GetCost(n)   == Do([a |-> "getcost", n |-> n])
 SetCS(c)     == Do([a |-> "setcs", c |-> c])
 Forward      == Do([a |-> "forward"])
 Mode(v)      == Do([a |-> "mode", v |-> v])
+\* one option call that changes the option (v is an element of Temps, or 0 / 1)
+Upd(o, v)    == ~OptIs(core.opt, o, v) /\ Do([a |-> "upd", o |-> o, v |-> v])
+OptVals(o)   == IF o = "temp" THEN Temps ELSE {0, 1}
 
 Next == \/ \E b \in BOOLEAN : Export(b)
         \/ Summary \/ Cost
@@ -62,6 +92,7 @@ Next == \/ \E b \in BOOLEAN : Export(b)
         \/ \E c \in Specs : SetCS(c)
         \/ Forward
         \/ \E v \in BOOLEAN : Mode(v)
+        \/ \E o \in OptNames(Kind) : \E v \in OptVals(o) : Upd(o, v)
 
 Spec == Init /\ [][Next]_vars
 
@@ -83,6 +114,18 @@ ObserversNeutral ==
 
 \* the setter of the cost specification touches the specification only
 SetterFrame == [][\A c \in Specs : SetCS(c) => core' = core /\ cs' = c]_vars
+
+\* an option call changes the option it names (and the sampler it selects), nothing else
+OptionFrame ==
+    [][\A o \in OptNames(Kind) : \A v \in OptVals(o) : Upd(o, v) =>
+          /\ OptIs(core'.opt, o, v)
+          /\ \A f \in DOMAIN core.opt \ {o} : core'.opt[f] = core.opt[f]
+          /\ core'.samp = SamplerOf(Kind, core'.opt)
+          /\ core'.wt = core.wt /\ core'.st = core.st /\ core'.theta = core.theta /\ core'.bn = core.bn /\ core'.dk = core.dk
+          /\ cs' = cs]_vars
+
+\* the sampler in force is the one the options (as the user set them) select
+SamplerConsistent == core.samp = SamplerOf(Kind, core.opt)
 
 \* history configs: every sequence, with and without its observer calls, ends in the same core and specification;
 \* the specification in force is the last one that was set (set a, set b, set a = set a)
